@@ -3,7 +3,7 @@
 
 check('C01', 'Hypothesis-driven totality search over text pools x renderer configurations x input forms, complete short-string enumeration, exception allow-list with independent admissibility predicates, wall-clock watchdog',
       'hypothesis-sharded + enumeration-pool + atheris',
-      'Random, mutated, generated and pumped texts (<= 4 KB) go through all 11 renderer configurations with drawn options and the '
+      'Random, mutated, generated, pumped (snippets repeated behind unclosed openers) and nested-pump texts (containers deepening line by line, up to ~90 levels) of <= 4 KB go through all 11 renderer configurations with drawn options and the '
       'str / list / file input forms; every string over a 12-symbol alphabet up to length 5 (6-7 thorough) is enumerated. Any exception '
       'outside the three documented refusals, any non-str result and any confirmed time-out is a violation.',
       'Termination is judged against a wall clock (10 s, confirmed by a 30 s re-run); RecursionError is accepted only when a text-derived '
@@ -20,7 +20,7 @@ check('C02', 'complete enumeration of the vendored spec corpus against expected 
 check('C06', 'exhaustive small-alphabet enumeration + Hypothesis strings against an independent reference model of the spec delimiter algorithm',
       'enumeration-pool + hypothesis-sharded',
       'All strings over {a,space,*,_,.} up to length 8 (11 thorough), {a,*} and {a,_} up to 14 (17), {a,*,_} up to 10 (13) and '
-      'random wide-alphabet strings are rendered and compared with an executable model written from the spec text; the enumerated '
+      'random wide-alphabet strings (incl. Unicode symbols, a control, combining and format characters) and long-range strings (an opener and its closer up to 300 unmatched runs apart) are rendered and compared with an executable model written from the spec text; the enumerated '
       'parts are complete over their finite domains, the rest is sampling.',
       'Trusts vf/oracle/emphasis.py (validated at start-up on the >100 eligible spec emphasis examples) and unicodedata.',
       'DESIGN.md 5/C06')
@@ -44,7 +44,7 @@ check('C08', 'Hypothesis-generated hostile and pooled inputs x options; strict o
 check('C15', 'Hypothesis-generated texts supplied in every input form, differential comparison of outputs, real CLI subprocess batches',
       'hypothesis-sharded',
       'Each sampled text is supplied as str (with/without final newline), list / tuple / iterator of lines with and without terminators, '
-      'StringIO, real file object, in-process CLI and (batched) a real python -m mistletoe subprocess on 1..8 files; all outputs must be byte-identical.',
+      'StringIO, real file object, in-process CLI and (batched) a real python -m mistletoe subprocess on 1..8 files; all outputs must be byte-identical; texts with a pipe are evaluated a second time with the parse option Table.interrupt_paragraph toggled, and every form must follow the option.',
       'Domain: \\n is the only line terminator (the characters at which str.splitlines splits but file iteration does not are excluded); NUL and other control characters are in. Sampling only.',
       'DESIGN.md 5/C15')
 
@@ -110,7 +110,7 @@ check('C03', 'Hypothesis choice tapes decoded into model trees of CommonMark/GFM
       'Each tape is decoded into a tree (all block and inline constructs of the statement, depth <= 4, <= 40 blocks) whose spelling choices '
       '(indentation, markers incl. leading zeros and per-item indentation, padding, tabs at column 0, fences, closing #, > with/without space, lazy lines, optional and whitespace-only blank lines, table pipes and padding, multi-line titles) are drawn as well; paragraphs of raw delimiter runs are read by the emphasis model; the '
       'Markdown written from it must render to the HTML written from the tree by independent code. A curated list of hand-derived pairs '
-      '(regressions of repaired defects) is enumerated too.',
+      '(regressions of repaired defects) is enumerated too, and a complete table of HTML block tag names (the 62 of the specification and 20 others x 8 spellings after a paragraph line).',
       'Sound only as far as the writer is (it writes only spellings the specification makes unambiguous; see DESIGN.md 3/G4). Seven recorded '
       'findings are excluded by writer switches and announced as KNOWN-FINDING with hand-derived witnesses.',
       'DESIGN.md 5/C03')
